@@ -169,7 +169,30 @@ func SecretFree(msg proto.Message, secrets ...[]byte) bool {
 // signing with the leaf's key (universe key keyIdx) if it holds it, with an unrelated key otherwise.
 // Under the engine the call is intercepted and returns nil: the model reads the peer struct instead.
 func AdversaryConn(protos []string, chain [][]byte, keyIdx int, holds bool) net.Conn {
+	return AdversaryConnMode(protos, chain, keyIdx, holds, false, false)
+}
+
+// AdversaryConnMode additionally offers a peer that does not speak TLS (writes junk, then closes) and a peer that
+// aborts the handshake with a fatal alert once it has seen the server's certificate.
+func AdversaryConnMode(protos []string, chain [][]byte, keyIdx int, holds, notTLS, abort bool) net.Conn {
 	server, client := connPair()
+	if notTLS {
+		go func() {
+			_, _ = client.Write([]byte("GET / HTTP/1.1\r\nHost: example\r\n\r\n"))
+			_ = client.Close()
+		}()
+		return server
+	}
+	if abort {
+		go func() {
+			// verification against an empty pool fails: the client sends a fatal bad_certificate alert
+			tc := tls.Client(client, &tls.Config{NextProtos: protos, RootCAs: x509.NewCertPool(), ServerName: "no-such-server", MinVersion: tls.VersionTLS13})
+			_ = client.SetDeadline(time.Now().Add(5 * time.Second))
+			_ = tc.Handshake()
+			_ = client.Close()
+		}()
+		return server
+	}
 	go func() {
 		k := keyIdx
 		if !holds {
